@@ -4,14 +4,11 @@
   kernel evaluation (~90 s) is cached independently of the structural proofs in Props/C09.lean, which
   restates every one of them under the same name in namespace `PolyVerif.C09`.
 -/
-import PolyVerif.Model.March
+import PolyVerif.Lemmas.MarchBits
 
 namespace PolyVerif
 namespace C09
 open PolyVerif.March PolyVerif.Gen.March
-
-/-- the eight corner bits of a cell, in the code's corner order -/
-def bits8 (b0 b1 b2 b3 b4 b5 b6 b7 : Bool) : List Bool := [b0, b1, b2, b3, b4, b5, b6, b7]
 
 namespace Tab
 
